@@ -6,3 +6,8 @@ import P2P.Props.C12
 #print axioms P2P.Props.C12.checks_first
 #print axioms P2P.Props.C12.charge_guard_spec
 #print axioms P2P.Props.C12.repair_gate_spec
+#print axioms P2P.Props.C12.gate_accepts_iff_usable
+#print axioms P2P.Props.C12.userff_without_usernames_refused
+#print axioms P2P.Props.C12.missing_file_refused
+#print axioms P2P.Props.C12.ph_outside_refused
+#print axioms P2P.Props.C12.neutral_termini_need_parse
